@@ -21,7 +21,13 @@
       token, changes neither the sequence of token kinds and lexemes nor the kind of ending
       ([layout_character_in_front], [layout_character_after_a_token]; Reg/Layout.v, generic in the automaton, with
       the side conditions decided by computation on the transition table translated from lexer.go); with 4, the
-      derived specification is the same ([leading_layout_does_not_change_the_result]). *)
+      derived specification is the same ([leading_layout_does_not_change_the_result]).
+   6. COMMENTS, for all texts and all comments: every string the translated scanner itself takes for a complete block
+      comment, in front of the text or directly after any token, and every line comment in front of a line end or of the
+      end of the text, changes neither kinds, lexemes nor the kind of ending ([block_comment_in_front],
+      [line_comment_in_front], [comment_after_a_token]); a comment begins with a slash and a slash extends no token, so
+      the premises of [comment_after_a_token] hold at every token boundary.  (That the scanner's comments are the
+      DOCUMENTED comments is C05's bisimulation.) *)
 From Coq Require Import List Bool Arith NArith.
 From Verif Require Import Reg.Dfa Reg.TwoBuf Reg.MaxMunch Reg.Layout Emerge.Pipeline.
 From VerifGen Require Import LexerGo.
@@ -114,3 +120,119 @@ Proof.
   destruct (snd (tokens (Dfa.step go_dfa) go_cls (b :: t ++ [10%N]))); try discriminate E. rewrite He. reflexivity.
 Qed.
 Print Assumptions leading_layout_does_not_change_the_result.
+
+(* ---- comments: a whole comment in front of the text or directly after any token, for the scanner translated from lexer.go ---- *)
+Definition state_after (s : list N) : N := match runq (Dfa.step go_dfa) 0 s with Some q => q | None => 0%N end.
+Definition block_end : N := state_after [47; 42; 42; 47]%N.      (* after the closing star-slash *)
+Definition line_state : N := state_after [47; 47]%N.             (* inside a line comment *)
+Definition comment_states : list N := map state_after [[47]; [47; 92]; [47; 97]; [47; 97; 47]; [47; 47]; [47; 42]; [47; 42; 42]; [47; 42; 42; 47]]%N.
+
+(* what the scanner itself takes for a complete block comment / a line comment up to (not including) the line end *)
+Definition is_block_comment (v : list N) : Prop := runq (Dfa.step go_dfa) 0 v = Some block_end.
+Definition is_line_comment (v : list N) : Prop := runq (Dfa.step go_dfa) 0 v = Some line_state.
+
+Lemma comment_conditions :
+  go_cls block_end = CSkip /\ final_closed_ok go_dfa block_end = true /\ block_end <> 0%N /\
+  go_cls line_state = CSkip /\ line_state <> 0%N /\
+  Dfa.step go_dfa line_state 10 = None /\ Dfa.step go_dfa line_state 13 = None /\
+  tokens_dead_ok go_dfa go_cls 47 = true /\
+  entered_by go_dfa comment_states 47 = true /\ memq 0 comment_states = false /\
+  memq block_end comment_states = true /\ memq line_state comment_states = true.
+Proof. vm_compute. repeat split; try reflexivity; discriminate. Qed.
+
+Lemma comment_nonempty v q : runq (Dfa.step go_dfa) 0 v = Some q -> q <> 0%N -> v <> [].
+Proof. intros H Hq ->. unfold runq in H. simpl in H. congruence. Qed.
+
+Theorem comments_begin_with_a_slash v : is_block_comment v \/ is_line_comment v -> hd 0%N v = 47%N.
+Proof.
+  destruct comment_conditions as [_ [_ [_ [_ [_ [_ [_ [_ [He [H0 [Hb Hl]]]]]]]]]]].
+  intros [H|H]; eapply (entered_by_sound go_dfa comment_states 47 He H0); eauto.
+Qed.
+Print Assumptions comments_begin_with_a_slash.
+
+Theorem a_slash_does_not_extend_a_token q k m : go_cls q = CTok k m -> Dfa.step go_dfa q 47 = None.
+Proof.
+  destruct comment_conditions as [_ [_ [_ [_ [_ [_ [_ [Hd _]]]]]]]].
+  exact (tokens_dead_ok_sound go_dfa go_cls 47 Hd q k m).
+Qed.
+Print Assumptions a_slash_does_not_extend_a_token.
+
+Lemma same_tokens_from_lexes s s' :
+  (forall p ts e, lexes (Dfa.step go_dfa) go_cls p s ts e ->
+     exists ts' e', lexes (Dfa.step go_dfa) go_cls p s' ts' e' /\ proj ts' = proj ts /\ ekind e' = ekind e) ->
+  let r1 := tokens (Dfa.step go_dfa) go_cls s in
+  let r2 := tokens (Dfa.step go_dfa) go_cls s' in
+  kinds_and_lexemes (fst r2) = kinds_and_lexemes (fst r1) /\ ekind (snd r2) = ekind (snd r1).
+Proof.
+  intros H r1 r2.
+  pose proof (tokens_spec (Dfa.step go_dfa) go_cls go_start_not_accepting s) as L1.
+  destruct (H _ _ _ L1) as [ts' [e' [L2 [P E]]]].
+  pose proof (tokens_spec (Dfa.step go_dfa) go_cls go_start_not_accepting s') as L3.
+  destruct (lexes_functional _ _ _ _ _ _ L3 _ _ L2) as [E1 E2]. subst r1 r2. cbv zeta. rewrite E1, E2. split; [exact P | exact E].
+Qed.
+
+Theorem block_comment_in_front v s : is_block_comment v ->
+  let r1 := tokens (Dfa.step go_dfa) go_cls s in
+  let r2 := tokens (Dfa.step go_dfa) go_cls (v ++ s) in
+  kinds_and_lexemes (fst r2) = kinds_and_lexemes (fst r1) /\ ekind (snd r2) = ekind (snd r1).
+Proof.
+  intros Hv. destruct comment_conditions as [Hs [Hc [Hn _]]].
+  apply same_tokens_from_lexes. intros p ts e L.
+  exact (skip_lexeme_in_front (Dfa.step go_dfa) go_cls v block_end (comment_nonempty v _ Hv Hn) Hs p s ts e L
+           (closed_munch go_dfa block_end v s Hc Hv) p).
+Qed.
+Print Assumptions block_comment_in_front.
+
+Theorem line_comment_in_front v s : is_line_comment v ->
+  (s = [] \/ exists c s1, s = c :: s1 /\ (c = 10 \/ c = 13)%N) ->
+  let r1 := tokens (Dfa.step go_dfa) go_cls s in
+  let r2 := tokens (Dfa.step go_dfa) go_cls (v ++ s) in
+  kinds_and_lexemes (fst r2) = kinds_and_lexemes (fst r1) /\ ekind (snd r2) = ekind (snd r1).
+Proof.
+  intros Hv Hs. destruct comment_conditions as [_ [_ [_ [Hk [Hn [H10 [H13 _]]]]]]].
+  apply same_tokens_from_lexes. intros p ts e L.
+  refine (skip_lexeme_in_front (Dfa.step go_dfa) go_cls v line_state (comment_nonempty v _ Hv Hn) Hk p s ts e L _ p).
+  split; [exact Hv|]. destruct Hs as [->|[c [s1 [-> [->| ->]]]]]; [exact I | exact H10 | exact H13].
+Qed.
+Print Assumptions line_comment_in_front.
+
+(* directly after ANY token: [after_token_s] walks to a token boundary; its premises at that boundary are that the token is
+   not extended by the comment's first character (always true: the two theorems above) and that the scanner stops exactly
+   after the comment (always true for a block comment; for a line comment: a line end or the end of the text follows) *)
+Theorem comment_after_a_token v f s s' :
+  (is_block_comment v /\ f = block_end) \/ (is_line_comment v /\ f = line_state) ->
+  after_token_s (Dfa.step go_dfa) go_cls v f s s' ->
+  let r1 := tokens (Dfa.step go_dfa) go_cls s in
+  let r2 := tokens (Dfa.step go_dfa) go_cls s' in
+  kinds_and_lexemes (fst r2) = kinds_and_lexemes (fst r1) /\ ekind (snd r2) = ekind (snd r1).
+Proof.
+  intros Hv Hins. destruct comment_conditions as [Hs [_ [Hn [Hk [Hn' _]]]]].
+  apply same_tokens_from_lexes. intros p ts e L.
+  destruct Hv as [[Hv ->]|[Hv ->]].
+  - exact (skip_lexeme_after_a_token (Dfa.step go_dfa) go_cls v block_end (comment_nonempty v _ Hv Hn) Hs s s' Hins p ts e L).
+  - exact (skip_lexeme_after_a_token (Dfa.step go_dfa) go_cls v line_state (comment_nonempty v _ Hv Hn') Hk s s' Hins p ts e L).
+Qed.
+Print Assumptions comment_after_a_token.
+
+(* the premise "the scanner stops exactly after a block comment" holds whatever follows *)
+Theorem the_scanner_stops_after_a_block_comment v r : is_block_comment v -> munch (Dfa.step go_dfa) v r block_end.
+Proof. intros Hv. destruct comment_conditions as [_ [Hc _]]. exact (closed_munch go_dfa block_end v r Hc Hv). Qed.
+Print Assumptions the_scanner_stops_after_a_block_comment.
+
+Theorem leading_block_comment_does_not_change_the_result v t : is_block_comment v ->
+  snd (scan t) = EndEOF -> front (v ++ t) = front t.
+Proof.
+  intros Hv He. destruct (block_comment_in_front v (t ++ [10%N]) Hv) as [P E].
+  apply front_depends_only_on_tokens.
+  - unfold scan. rewrite <- app_assoc. exact P.
+  - unfold scan in *. rewrite <- app_assoc. rewrite He in E.
+    destruct (snd (tokens (Dfa.step go_dfa) go_cls (v ++ t ++ [10%N]))); try discriminate E. rewrite He. reflexivity.
+Qed.
+Print Assumptions leading_block_comment_does_not_change_the_result.
+
+(* the definitions are not vacuous *)
+Example comments_exist :
+  is_block_comment [47; 42; 32; 97; 32; 42; 32; 98; 10; 42; 42; 47]%N /\     (* a comment with stars, a blank and a line feed inside *)
+  is_line_comment [47; 47; 32; 120; 32; 47; 42]%N /\                        (* a line comment containing slash-star *)
+  ~ is_block_comment [47; 42; 32; 42]%N.
+Proof. unfold is_block_comment, is_line_comment. vm_compute. repeat split; try reflexivity. discriminate. Qed.
